@@ -61,7 +61,9 @@ func c10Classify(c *Ctx) {
 		class := ""
 		inLoop := false
 		for _, a := range p.Atoms {
-			if a.Cond.Contains(func(e *an.Expr) bool { return e.Op == an.OpLoop }) {
+			// the retry loop has been entered once a test sits in a cycle of the flow graph (the loop
+			// may be rotated: its first iteration then has no test on the counter)
+			if a.If != nil && an.Info(a.If.Block().Parent()).Reaches(a.If.Block(), a.If.Block()) {
 				inLoop = true
 				break
 			}
@@ -150,9 +152,8 @@ func c10Classify(c *Ctx) {
 			continue
 		}
 		for _, a := range p.Atoms {
-			x, y, op, ok := effCmp(a)
-			if ok && x.Op == an.OpLoop && op == token.GEQ {
-				k, _ := y.ConstInt()
+			k, _, exit, ok := loopTrip(a)
+			if ok && exit {
 				c.R.Check(k == 50 && !exprIsNil(p.Results[1]) && exprIsNil(p.Results[0]), "R-C10-2", fn+":attempts", fn, c.pos(p.Ret.Pos()),
 					fmt.Sprintf("loop bound %d; on exhaustion returns (%s, non-nil=%v)", k, p.Results[0], !exprIsNil(p.Results[1])), "at most 50 attempts, then a non-nil error", "dial retry bound differs from the documented 50 attempts")
 			}
@@ -229,23 +230,46 @@ func c10Backoff(c *Ctx) {
 					}
 				}
 				key := fmt.Sprintf("%s:delay-progression@capped=%s", fn, tri(capped, tested))
+				// (k+1)·250ms after the k-th iteration, k counted from the counter's initial value
+				stepForm := func(e *an.Expr) bool {
+					nf, okN := an.Norm(e)
+					if !okN || nf.Mode != an.ModeNone || len(nf.Lin.T) != 1 {
+						return false
+					}
+					for sym, coef := range nf.Lin.T {
+						if coef.Cmp(big.NewRat(250000000, 1)) != 0 || !strings.HasPrefix(sym, "loop:") {
+							return false
+						}
+						i0, okI := loopInit(e, sym)
+						if !okI || nf.Lin.C.Cmp(big.NewRat(250000000*(1-i0), 1)) != 0 {
+							return false
+						}
+					}
+					return true
+				}
+				// the builtin form min(step, 3s) decides both cases at once
+				isMin := false
+				if v != nil && v.Op == an.OpCall && v.Fn == nil && v.Name == "min" && len(v.Args) == 2 {
+					a0, a1 := v.Args[0], v.Args[1]
+					if k, isC := a0.ConstInt(); isC && k == 3000000000 {
+						a0, a1 = a1, a0
+					}
+					if k, isC := a1.ConstInt(); isC && k == 3000000000 && stepForm(a0) {
+						isMin = true
+						key = fmt.Sprintf("%s:delay-progression@min", fn)
+					}
+				}
 				if seen[key] {
 					continue
 				}
 				seen[key] = true
-				okv := false
-				if tested && v != nil {
+				okv := isMin
+				if tested && v != nil && !isMin {
 					if capped {
 						k, isC := v.ConstInt()
 						okv = isC && k == 3000000000
 					} else {
-						nf, okN := an.Norm(v)
-						okv = okN && sameValue(v, cmpX) && nf.Mode == an.ModeNone && nf.Lin.C.Cmp(big.NewRat(250000000, 1)) == 0 && len(nf.Lin.T) == 1
-						for _, coef := range nf.Lin.T {
-							if coef.Cmp(big.NewRat(250000000, 1)) != 0 {
-								okv = false
-							}
-						}
+						okv = sameValue(v, cmpX) && stepForm(v)
 					}
 				}
 				init0 := false
@@ -269,9 +293,8 @@ func c10Backoff(c *Ctx) {
 		okBound, okWait := false, false
 		for _, p := range c.pathsO("R-C10-2", rr, an.PathOpts{EmitCut: true}) {
 			for _, a := range p.Atoms {
-				x, y, op, ok := effCmp(a)
-				if ok && x.Op == an.OpLoop && op == token.GEQ && p.Ret != nil {
-					if k, isC := y.ConstInt(); isC && k == 5 && !exprIsNil(p.Results[2]) {
+				if k, _, exit, ok := loopTrip(a); ok && exit && p.Ret != nil {
+					if k == 5 && !exprIsNil(p.Results[2]) {
 						okBound = true
 					}
 				}
@@ -454,20 +477,41 @@ func c10FailTogether(c *Ctx) {
 				}
 			}
 		}
-		for _, g := range l.AnonFuncs {
-			sawDone := false
-			for _, b := range g.Blocks {
-				for _, in := range b.Instrs {
-					if u, ok := in.(*ssa.UnOp); ok && u.Op == token.ARROW && isDoneChan(c.XO.Of(u.X)) {
+		// the goroutine handed to eg.Go: on every path it waits for <-ctx.Done() and then forces the read to time out
+		for _, ci := range an.CallsIn(l) {
+			fo := an.CalleeObj(ci.Common())
+			if fo == nil || fo.Name() != "Go" || fo.Pkg() == nil || fo.Pkg().Path() != "golang.org/x/sync/errgroup" {
+				continue
+			}
+			args := ci.Common().Args
+			mc, isCl := args[len(args)-1].(*ssa.MakeClosure)
+			if !isCl {
+				continue
+			}
+			gps := c.pathsO("R-C10-4", mc.Fn.(*ssa.Function), an.PathOpts{})
+			all := len(gps) > 0
+			for _, gp := range gps {
+				if gp.Ret == nil {
+					continue
+				}
+				sawDone, forced := false, false
+				gp.Instrs(func(in ssa.Instruction) {
+					if u, ok := in.(*ssa.UnOp); ok && u.Op == token.ARROW && isDoneChan(gp.Of(u.X)) {
 						sawDone = true
 					}
 					if ci, ok := in.(ssa.CallInstruction); ok && an.CallIs(ci.Common(), PkgSystem, "Conn", "SetReadDeadline") && sawDone {
-						arg := c.XO.Of(ci.Common().Args[len(ci.Common().Args)-1])
+						arg := gp.Of(ci.Common().Args[len(ci.Common().Args)-1])
 						if arg.Op == an.OpGlobal && arg.Name == "corerad.deadlineNow" {
-							interrupt = true
+							forced = true
 						}
 					}
+				})
+				if !forced {
+					all = false
 				}
+			}
+			if all {
+				interrupt = true
 			}
 		}
 		// Deferred calls run last-in first-out: the deferred eg.Wait() blocks until the interrupt goroutine
